@@ -21,16 +21,51 @@ def kernel(pid, text, technique, design):
                 level_note=KERNEL_NOTE,
                 technique=technique)
 
+TECH = ('explicit TLA+ specification (OVMKernel / OVMKernelDefs / OVMQueries), TLC model checking of the operational model '
+        'against the declarative relations, TLC-generated behaviours replayed on the C++ library, TLC trace validation (OVMTrace)')
+COMMON = (' TLC explores every history over the property\'s alphabets from the seed meshes (tetrahedra glued along faces / edges, closed and '
+          'open fans around an edge, pillow cell, prism, dangling parts, duplicate edges, loop edge, 2-gon) in the (deferred x fast) modes and '
+          'incidence subsets of the configuration, checks the operational model against the relation on every step, and every explored '
+          'transition plus random histories (tlc -simulate) are executed on the real library and validated line by line.')
+
 CLAIMED = [
-    kernel('C02',
-           'TLC explores every history of deletions / garbage collection / mode switches (depth 2 quick, 3 thorough) from 8 seed '
-           'meshes in all 4 deletion modes x 8 incidence subsets on the operational TLA+ model and checks DeleteRel '
-           '(exactly the upward closure disappears, survivors keep their definitions through a bijection, counters, '
-           'genus and needs_garbage_collection describe the survivors); every explored transition plus random '
-           'histories are executed on the real library and each recorded step is validated against the same relation.',
-           'explicit TLA+ spec (OVMKernel/OVMKernelDefs), TLC model checking + generation, trace validation of the implementation (OVMTrace)',
-           'DESIGN.md section 6, C02'),
+    kernel('C01', 'State predicate CacheIsInverse (the three stored incidence relations equal, as bags, their brute-force definition over the '
+           'live edge/face/cell definitions) and the definitions of all 14 upward circulators, valences, is_boundary x 6, the 6 boundary '
+           'iterators and incident_cell, compared with the raw answers of the implementation on every recorded state.' + COMMON, TECH, 'DESIGN.md section 6, C01'),
+    kernel('C02', 'Step relation DeleteRel (exactly the upward closure disappears; survivors keep their definitions through a slot bijection; '
+           'counters, genus and needs_garbage_collection describe the survivors; identical in all four modes) on every recorded deletion.' + COMMON, TECH, 'DESIGN.md section 6, C02'),
+    kernel('C03', 'Step relation PropFollows for 19 tracked properties (int, bool, double, string, Vec3d; shared, private, persistent) on all seven '
+           'entity kinds through the slot map of each call (deletion in every mode, garbage collection, swaps, clear, growth): one element per slot, '
+           'survivors keep their value and side, new slots hold the default.' + COMMON, TECH, 'DESIGN.md section 6, C03'),
+    kernel('C04', 'Step relations GCRel and StatusGCRel (no pending deletions afterwards; live entities, definitions and property values preserved '
+           'through a bijection; status-marked closure removed; with the manifoldness option exactly the faces/edges/vertices bounding no cell; every '
+           'vertex/halfedge/halfface/cell handle handed in for tracking designates the same entity or is invalid).' + COMMON, TECH, 'DESIGN.md section 6, C04'),
+    kernel('C05', 'Circulator protocol (ProtoOK: max_laps 1..3 forward walk = expected list repeated, begin != end loop, k steps forward then k back '
+           'restore handle and lap, begin advanced past the last lap == end, empty centre immediately invalid) for 26 circulators + boundary halfface '
+           'circulator, and the 6 entity iterators (ascending live handles forward, range, backward from end, backward with valid()).' + COMMON, TECH, 'DESIGN.md section 6, C05'),
+    dict(kernel('C08', 'Handle algebra proved for all naturals with TLAPS (14 obligations); the C++ conversions evaluated on every index of [0, 2^30) '
+           'and validated block-wise by TLC against the closed forms; Mirror predicate on every recorded state (opposite halfedge swaps endpoints, '
+           'opposite halfface = reversed opposites, two sides of a face enumerate the same cycle in opposite directions, next/prev inverse); faces '
+           'built from vertex lists are closed loops through exactly those vertices.' + COMMON, TECH + '; TLAPS proof', 'DESIGN.md section 6, C08')),
+    kernel('C09', 'State predicate FanOrder on every recorded state without set_face/set_cell in its history (for every single-fan edge: successor of a '
+           'non-boundary halfface is the opposite of its in-cell neighbour, a boundary halfface only last, opposite halfedge mirrored) and '
+           'adjacent_halfface_in_cell against its definition for every (halfface, halfedge).' + COMMON, TECH, 'DESIGN.md section 6, C09'),
+    kernel('C10', 'Every lookup (find_halfedge, find_halfface by vertices / halfedges, find_halfface_extensive, find_halfedge_in_cell, '
+           'find_halfface_in_cell, get_halfface_vertices x3, is_incident, n_vertices_in_cell) for EVERY argument tuple over the mesh, against its '
+           'match set computed from the definitions (sound always; complete where the documented contract determines the answer).' + COMMON, TECH, 'DESIGN.md section 6, C10'),
+    kernel('C11', 'Step relation AddRel: add_edge de-duplication, add_face/add_cell with topology check accept exactly closed loops / closed surfaces '
+           '(all handle lists up to length 3 resp. 4 over the live halfedges / free halffaces, incl. empty, open, repeated, both orientations), '
+           'rejected or de-duplicated calls leave every observable aspect unchanged, accepted calls append exactly the given definition.' + COMMON, TECH, 'DESIGN.md section 6, C11'),
+    kernel('C12', 'Twin run: every history is executed a second time with all incidences enabled and the core projections (definitions, counts, flags, '
+           'property values, results) are compared step by step; after every enable_* the caches must equal their definition and be in fan order; '
+           'circulators needing a disabled kind must be empty; executed under ASan/UBSan so that an access to a disabled cache is observed.' + COMMON, TECH + '; sanitizer build for the replay', 'DESIGN.md section 6, C12'),
+    kernel('C17', 'Step relation SwapRel (definitions, deletion flags, counters relabelled by the transposition; every property exchanged, halfedge/'
+           'halfface values side by side; caches equal their definition afterwards), swap(a,a) is a no-op, the same swap twice restores the state; '
+           'every ordered pair of every kind incl. deferred-deleted entities.' + COMMON, TECH, 'DESIGN.md section 6, C17'),
 ]
+
+# fragments written by the module builders are merged once their checks have been accepted by the coordinator
+READY_FRAGMENTS = set()
 
 PENDING = {
 }
@@ -48,7 +83,7 @@ def main():
     frags = load_fragments()
     have = {c['property_id'] for c in CLAIMED}
     for fr in frags:
-        if fr['property_id'] not in have:
+        if fr['property_id'] not in have and fr['property_id'] in READY_FRAGMENTS:
             CLAIMED.append(fr)
     props = [json.loads(l) for l in open(os.path.join(VERIF, 'properties.jsonl'))]
     claimed = {c['property_id'] for c in CLAIMED}
@@ -60,9 +95,9 @@ def main():
     m = dict(version=1,
              setup_cmd='bin/setup',
              hooks=dict(guard='OVM_VERIF_TRACE',
-                        enable='cmake -S /verif/harness -B /verif/.build/<variant> (adds -DOVM_VERIF_TRACE=1 to every translation unit of the library); no source hooks are needed so far: the executor reads the full state through the public API and a derived accessor class',
+                        enable='cmake -S /verif/harness -B /verif/.build/<variant> adds -DOVM_VERIF_TRACE=1 to every translation unit (VERIF_HOOKS=ON); the hooks (Core/VerifTrace.hh, OVM_VERIF_SCOPE in the public mutators of TopologyKernel) stay inert unless a tracer installs a callback; harness/tracer.cc does so inside the re-built repository tests (target unittests_traced, trace source T)',
                         baseline_off_cmd='bin/baseline_off',
-                        source_commits=[],
+                        source_commits=['a138602'],
                         add_only=True),
              engines=[dict(name='tla-kernel', path='spec/OVMKernel.tla spec/OVMKernelDefs.tla spec/OVMKernelMC.tla spec/OVMTrace.tla harness/ovm_exec.cc bin/kernel_check.py',
                            serves_properties=sorted(claimed),
